@@ -61,9 +61,10 @@ def gen():
         m = re.search(r"const\s+" + n + r"\s*:\s*u32\s*=\s*(\d+)\s*;", src)
         if not m: raise Fail(f"{REL}: const {n} not found")
         consts[n] = int(m.group(1))
-    m = re.search(r"const\s+PASSIVE_SPIN\s*:\s*i32\s*=\s*(\d+)\s*;", src)
+    m = re.search(r"const\s+PASSIVE_SPIN\s*:\s*\w+\s*=\s*([^;]+);", src)
     if not m: raise Fail(f"{REL}: const PASSIVE_SPIN not found")
-    spin = int(m.group(1))
+    from extract import eval_int
+    spin = eval_int(m.group(1).strip(), REL, "PASSIVE_SPIN")
     # the futex versions are the second `fn sys_lock` / `fn sys_unlock` (the first are the CAS
     # spinlock fallbacks); identify them by content instead of position
     locks = [fn_body(src, r"fn\s+sys_lock\s*\(\s*&self\s*\)", k, REL) for k in range(len(re.findall(r"fn\s+sys_lock\s*\(", src)))]
